@@ -91,7 +91,21 @@ func main() {
 		}
 		r := ev.New(c.ID, c.Level, tier)
 		r.Watch(4 * time.Minute)
-		c.Run(r)
+		func() {
+			// a panic raised inside jennifer while the check builds or renders code on its main
+			// goroutine, outside the explorers' own guards, ends the check with that violation
+			defer func() {
+				if p := recover(); p != nil {
+					stack := debug.Stack()
+					if !r.PanicHook("the check's main goroutine", p, stack) {
+						fmt.Fprintf(os.Stderr, "HARNESS FAILURE: panic in check %s: %v\n%s\n", c.ID, p, stack)
+						os.Exit(2)
+					}
+					r.NotExhaustive("the check stopped at a panic raised inside jennifer")
+				}
+			}()
+			c.Run(r)
+		}()
 		os.Exit(r.Finish())
 	case "replay":
 		if len(os.Args) < 3 {
